@@ -1536,6 +1536,9 @@ def install(I):
     )
     I.repo.externals["warnings"] = IN.StubModule("warnings", {"warn": B("warn", lambda I2, *a, **k: None)})
     I.repo.externals["time"] = IN.StubModule("time", {"time": B("time", lambda I2: 0.0)})
+    import itertools as _it
+
+    I.repo.externals["itertools"] = IN.StubModule("itertools", {"product": B("itertools.product", lambda I2, *its, repeat=1: [tuple(c) for c in _it.product(*[I2.iterate(x) for x in its], repeat=repeat)])})
     I.repo.externals["logging"] = IN.StubModule("logging", {})
     I.repo.externals["sys"] = IN.StubModule("sys", {})
     I.repo.externals["numbers"] = IN.StubModule("numbers", {"Number": NativeClass("numbers.Number")})
